@@ -379,6 +379,24 @@ pub fn run(ctx: &Ctx) -> i32 {
       }
     }
   }
+  // exponent sweep around the critical parallels / meridians, a spread of nside values
+  {
+    let pos = crate::alpha::exponent_sweep_positions();
+    let ns: Vec<u32> = vec![1, 2, 3, 5, 8, 100, 4099, 65536, 1_000_003, 1 << 29];
+    let sweep = par_jobs(ns.len(), |k| {
+      let mut part = Part::new();
+      for &(lon, lat) in &pos {
+        part.stratum("exponent-sweep", 1, 3);
+        match check_pos(ns[k], lon, lat, listed_kf2, &mut part) {
+          V::Ok => {}
+          V::Known(ex) => part.known(KF2, ex),
+          V::Bad(v) => part.viol(v),
+        }
+      }
+      part
+    });
+    total.merge(sweep);
+  }
   let mut extra = Map::new();
   if let Some(w) = ctx.findings.witness(KF2) {
     let (n, lon, lat) = (w["nside"].as_u64().unwrap_or(2) as u32, w["lon"].as_f64().unwrap_or(0.0), w["lat"].as_f64().unwrap_or(1.2));
